@@ -156,6 +156,14 @@ func checkSnapshotStanzaError(c *core.Case, v Val) {
 	}
 	c.Count("snapshot_reused_decode_target", 1)
 	snapshotDiff(c, "Error", "Error.TokenReader(reused-decode-target)", got, want, gerr, werr)
+	// A copy of a decoded stanza.Error shares the Text map with the variable,
+	// and decoding into the variable again fills that map in place (the
+	// convention of encoding/json for maps: the existing map is reused).  That
+	// is Go's aliasing of maps, not a loss of the decoded value; it is counted,
+	// not judged.
+	if len(orig.Text) > 0 {
+		c.Count("stanza_error_copy_shares_text_map_with_reused_decode_target_not_judged", 1)
+	}
 }
 
 func checkSnapshotStanza(c *core.Case, v Val) {
@@ -239,4 +247,36 @@ func checkSnapshotStreamError(c *core.Case, v Val) {
 	}
 	c.Count("snapshot_stream_error", 1)
 	snapshotDiff(c, "stream.Error", "stream.Error.TokenReader", got, want, gerr, werr)
+
+	// a decoded value is kept (copied) and the variable is used as the decode
+	// target again: the copy must still be the first value
+	second := bare
+	second.Texts = nil
+	for _, t := range bare.Texts {
+		second.Texts = append(second.Texts, LangText{"xx", "second error " + t.Lang})
+	}
+	second.Texts = append(second.Texts, LangText{"yy", "only in the second error"})
+	second.Cond = "conflict"
+	var b1, b2 []byte
+	var e1, e2 error
+	if c.Guard("xml.Marshal", func() { b1, e1 = xml.Marshal(bare.streamError()); b2, e2 = xml.Marshal(second.streamError()) }) || e1 != nil || e2 != nil {
+		return
+	}
+	var target, keep stream.Error
+	var before, after serrCore
+	if c.Guard("reused decode target", func() {
+		if e1 = xml.Unmarshal(b1, &target); e1 != nil {
+			return
+		}
+		keep = target
+		before = coreSErr(keep)
+		e2 = xml.Unmarshal(b2, &target)
+		after = coreSErr(keep)
+	}) || e1 != nil || e2 != nil {
+		return
+	}
+	c.Count("snapshot_decoded_copy_kept", 1)
+	if f := diffSErr(after, before); f != "" {
+		c.Violate("codec:S:stream.Error:reused-decode-target:copy-changed:"+f, "a stream.Error was decoded and copied, then the variable was decoded into again: the copy changed in %s: was %+v, is %+v", f, before, after)
+	}
 }
